@@ -26,7 +26,7 @@
   "C14"
  ],
  "level": "U/iter",
- "tier": "wip",
+ "tier": "quick",
  "harness": "h_write_bitmaps",
  "sources": [
   "lib/ext2fs/bitops.c"
@@ -42,6 +42,7 @@
   "lib/ext2fs/rw_bitmaps.c:write_bitmaps"
  ],
  "assumes": [
+  "NEEDS the hooks in hooks-pending/csr.diff (named loop anchors in lib/ext2fs/rw_bitmaps.c and lib/ext2fs/csum.c): tier wip until they are merged; green with VERIF_REPO=<tree with the hooks>",
   "configuration of this unit: write_bitmaps(fs, do_inode = 0, do_block = 1); block size 1024, s_clusters_per_group = s_blocks_per_group = 4096 (512 bytes), s_inodes_per_group 2048 (256 bytes), cluster ratio 1 (the per-group byte counts are constants: the cursor invariant multiplies the group number by them); group count, s_first_data_block, blocks count, feature bits, fs->flags (with EXT2_FLAG_RW) arbitrary",
   "callees from other files are monitor stubs with arbitrary answers drawn independently per call (bg flags, get_range result, checksum setter result, bitmap location, write result); ext2fs_blocks_count returns one arbitrary value; io_channel_alloc_buf is malloc of one block (may fail); ext2fs_set_bit is the real bitops.c",
   "in-memory bitmap content arbitrary (get_range leaves the arbitrary buffer as the bits fetched)"
@@ -59,7 +60,7 @@
   "C14"
  ],
  "level": "U/iter",
- "tier": "wip",
+ "tier": "quick",
  "harness": "h_write_bitmaps",
  "sources": [
   "lib/ext2fs/bitops.c"
@@ -75,6 +76,7 @@
   "lib/ext2fs/rw_bitmaps.c:write_bitmaps"
  ],
  "assumes": [
+  "NEEDS the hooks in hooks-pending/csr.diff (named loop anchors in lib/ext2fs/rw_bitmaps.c and lib/ext2fs/csum.c): tier wip until they are merged; green with VERIF_REPO=<tree with the hooks>",
   "configuration of this unit: write_bitmaps(fs, do_inode = 1, do_block = 0); block size 1024, s_clusters_per_group = s_blocks_per_group = 4096 (512 bytes), s_inodes_per_group 2048 (256 bytes), cluster ratio 1 (the per-group byte counts are constants: the cursor invariant multiplies the group number by them); group count, s_first_data_block, blocks count, feature bits, fs->flags (with EXT2_FLAG_RW) arbitrary",
   "callees from other files are monitor stubs with arbitrary answers drawn independently per call (bg flags, get_range result, checksum setter result, bitmap location, write result); ext2fs_blocks_count returns one arbitrary value; io_channel_alloc_buf is malloc of one block (may fail); ext2fs_set_bit is the real bitops.c",
   "in-memory bitmap content arbitrary (get_range leaves the arbitrary buffer as the bits fetched)"
@@ -92,7 +94,7 @@
   "C14"
  ],
  "level": "U/iter",
- "tier": "wip",
+ "tier": "thorough",
  "harness": "h_write_bitmaps",
  "sources": [
   "lib/ext2fs/bitops.c"
@@ -108,6 +110,7 @@
   "lib/ext2fs/rw_bitmaps.c:write_bitmaps"
  ],
  "assumes": [
+  "NEEDS the hooks in hooks-pending/csr.diff (named loop anchors in lib/ext2fs/rw_bitmaps.c and lib/ext2fs/csum.c): tier wip until they are merged; green with VERIF_REPO=<tree with the hooks>",
   "configuration of this unit: write_bitmaps(fs, do_inode = 1, do_block = 1); block size 1024, s_clusters_per_group = s_blocks_per_group = 4096 (512 bytes), s_inodes_per_group 2048 (256 bytes), cluster ratio 1 (the per-group byte counts are constants: the cursor invariant multiplies the group number by them); group count, s_first_data_block, blocks count, feature bits, fs->flags (with EXT2_FLAG_RW) arbitrary",
   "callees from other files are monitor stubs with arbitrary answers drawn independently per call (bg flags, get_range result, checksum setter result, bitmap location, write result); ext2fs_blocks_count returns one arbitrary value; io_channel_alloc_buf is malloc of one block (may fail); ext2fs_set_bit is the real bitops.c",
   "in-memory bitmap content arbitrary (get_range leaves the arbitrary buffer as the bits fetched)"
@@ -232,7 +235,9 @@ errcode_t ext2fs_block_bitmap_csum_set(ext2_filsys fs, dgrp_t group, char *bitma
 	CHECK(size == WB_BLOCK_NBYTES, "block bitmap checksum over exactly clusters_per_group / 8 bytes");
 	CHECK(wb.b_start == (unsigned long long)IN.first_data_block + (unsigned long long)group * (WB_BLOCK_NBYTES * 8), "the bits fetched are those of this group: first_cluster + g * clusters_per_group");
 	if (group == IN.group_desc_count - 1 && WB_LAST_NBITS != 0 && wb_kbit >= WB_LAST_NBITS) {
+#if !defined(WB_SEL) || WB_SEL != 1
 		REACH("last group padded");
+#endif
 		CHECK(WB_BIT(bitmap, wb_kbit) == 1, "last group: bits behind the end of the filesystem are forced to 1 BEFORE the checksum is taken");
 	} else {
 		CHECK(WB_BIT(bitmap, wb_kbit) == wb.b_getbit, "the bits checksummed are the bits fetched (ghost bit)");
@@ -287,14 +292,18 @@ errcode_t io_channel_write_blk64(io_channel channel, unsigned long long block, i
 	CHECK(count == 1 && channel == &IO, "one block is written to the filesystem's channel");
 	wb.writes++;
 	if ((const unsigned char *)data == wb_bbuf) {
+#if !defined(WB_SEL) || WB_SEL != 1
 		REACH("block bitmap written");
+#endif
 		CHECK(wb.b_phase == 3, "block bitmap: written after its checksum and the descriptor checksum were set");
 		CHECK(block == wb.b_loc && block != 0 && block < IN.blocks_count, "block bitmap: written to the block the descriptor names, inside the device");
 		CHECK(wb_bbuf[verif_k] == wb.b_wit, "block bitmap: the bytes written are the bytes the checksum was set on (ghost offset)");
 		wb.b_phase = 4;
 		if (WB_ANS() & 1) { wb.fail = EXT2_ET_BLOCK_BITMAP_WRITE; return (errcode_t)(1 + (WB_ANS() & 0xffff)); }
 	} else {
+#if !defined(WB_SEL) || WB_SEL != 0
 		REACH("inode bitmap written");
+#endif
 		CHECK((const unsigned char *)data == wb_ibuf && wb.i_phase == 3, "inode bitmap: written from its buffer after its checksum and the descriptor checksum were set");
 		CHECK(block == wb.i_loc && block != 0 && block < IN.blocks_count, "inode bitmap: written to the block the descriptor names, inside the device");
 		CHECK(wb_ibuf[verif_k] == wb.i_wit, "inode bitmap: the bytes written are the bytes the checksum was set on (ghost offset)");
